@@ -68,7 +68,8 @@ theorem handled_at_most_once (progs : List (List Op)) (sched : List Tid) (i : Na
   have q := qinv_run _ sched (qinv_init progs)
   have hc := congrArg (List.count (Item.msg i)) q.conserve
   simp only [List.count_append] at hc
-  rw [q.handled_eq, count_msgIds]
+  have hh := congrArg (List.count i) q.handled_eq
+  simp only [List.count_append, count_msgIds] at hh
   omega
 
 /-- … and a message handed back (`SendErr`) or rejected is never handled. -/
@@ -81,30 +82,113 @@ theorem rejected_never_handled (progs : List (List Op)) (sched : List Tid) :
   have hc := congrArg (List.count (Item.msg r.id)) q.conserve
   simp only [List.count_append] at hc
   have : 0 < (run (init progs) sched).sh.handled.count r.id := List.count_pos_iff.mpr hmem
-  rw [q.handled_eq, count_msgIds] at this
+  have hh := congrArg (List.count r.id) q.handled_eq
+  simp only [List.count_append, count_msgIds] at hh
   omega
 
-/-- (a) Fate of an accepted message: every message in the channel history was dequeued by the
-receiver (handled), is still in the channel, or was dropped by the receiver's close+flush on exit
-— "exactly once unless the actor exits before reaching it". -/
+/-- (a) Fate of an accepted message — "exactly once unless the actor exits before reaching it" —
+with *dequeued* and *handled* kept apart (round 4): every message in the channel history had its
+handler started (`handled`), has just been dequeued and its handler not polled yet (`taken`), was
+dequeued and then dropped because the loop was left before its handler's first poll (`dropped`:
+`run_with_signal` tests the signal port first), is still in the channel, or was dropped by the
+receiver's close+flush on exit. Exactly one of the five. -/
 theorem accepted_message_fate (progs : List (List Op)) (sched : List Tid) (i : Nat)
     (h : (run (init progs) sched).sh.enq.count (.msg i) = 1) :
     (run (init progs) sched).sh.handled.count i
+      + (run (init progs) sched).sh.taken.toList.count i
+      + (run (init progs) sched).sh.dropped.count i
       + (run (init progs) sched).sh.queue.count (.msg i)
       + (run (init progs) sched).sh.flushed.count (.msg i) = 1 := by
   have q := qinv_run _ sched (qinv_init progs)
   have hc := congrArg (List.count (Item.msg i)) q.conserve
   simp only [List.count_append] at hc
-  rw [q.handled_eq, count_msgIds]
+  have hh := congrArg (List.count i) q.handled_eq
+  simp only [List.count_append, count_msgIds] at hh
   omega
+
+/-- (a, round 4) **A dequeued message is dropped unhandled only by a stop reason other than the
+marker**, at most one per actor life, and then the loop has been left: in the code, a kill that
+lands between `listen_in_priority` returning the message and the first poll of
+`run_with_signal(handle_message)`. Without such an exit every dequeued message gets its handler. -/
+theorem dequeued_then_dropped_only_by_other_exit (progs : List (List Op)) (sched : List Tid) :
+    (run (init progs) sched).sh.dropped.length ≤ 1 ∧
+    ((run (init progs) sched).sh.dropped ≠ [] →
+      (run (init progs) sched).sh.stoppedByOther = true ∧ (run (init progs) sched).sh.rxStopped = true) ∧
+    msgIds (run (init progs) sched).sh.deqd =
+      (run (init progs) sched).sh.handled ++ (run (init progs) sched).sh.taken.toList ++
+        (run (init progs) sched).sh.dropped := by
+  have q := qinv_run _ sched (qinv_init progs)
+  exact ⟨q.dropped_one, q.dropped_why, q.handled_eq⟩
+
+/-- (a, round 4) **A later stop / kill excuses nothing that should already have happened.** In
+EVERY reachable state in which the live receiver has nothing left to do (mailbox empty, nothing
+taken, not stopped) every send that has returned `Ok` so far has been handled — whatever the other
+threads are in the middle of, and whatever happens afterwards (`handled` only grows:
+`handled_in_enqueue_order`, `Mono.handledPrefix`). The driver evaluates `quietViolations` after every
+receiver run that leaves the actor alive, so a case that ends with a stop or kill is still judged up
+to its last quiet point. -/
+theorem ok_sends_are_handled_whenever_the_mailbox_is_quiet (progs : List (List Op)) (sched : List Tid)
+    (hq : quiet (run (init progs) sched).sh = true) :
+    quietViolations (okIds (run (init progs) sched).sh.rets) (run (init progs) sched).sh.handled = [] := by
+  have h := quiet_all_ok_handled (reach_run progs sched) hq
+  have : (okIds (run (init progs) sched).sh.rets).all (run (init progs) sched).sh.handled.contains = true := by
+    rw [List.all_eq_true]
+    intro i hi
+    generalize (run (init progs) sched).sh.rets = rets at h hi
+    generalize (run (init progs) sched).sh.handled = hd at h
+    induction rets with
+    | nil => simp [okIds] at hi
+    | cons r l ih =>
+      simp only [okIds, List.mem_append] at hi
+      rcases hi with hi | hi
+      · have hr := h r List.mem_cons_self
+        cases hk : r.kind <;> cases hres : r.res <;> simp [hk, hres] at hi
+        subst hi
+        simpa using hr (by simp [Ret.isOkSend, Ret.isSend, hk, hres])
+      · exact ih hi (fun r hr => h r (List.mem_cons_of_mem _ hr))
+  simp [quietViolations, this]
+
+/-- (round 4, cluster builds) **An accepted serialized message the actor cannot decode** (dropped
+with `Ok(())` inside `handle_message`, `actor.rs`) **never reaches the user's `handle`, and costs no
+other message anything:** for every set `u` of undecodable ids, what reaches `handle` — `userHandled u
+handled` — contains no id of `u`, contains every other id exactly as often as `handled` does (so at
+most once, and every Ok send of a decodable message that was handled still is), and keeps the
+relative order of the others. (Decision: `send_serialized` carries bytes, not a message of the
+actor's type; C02's "handled exactly once" is owed to `send_message/cast/call`. Not a finding.) -/
+theorem undecodable_message_is_dropped_alone (progs : List (List Op)) (sched : List Tid) (u : List Nat) :
+    let h := (run (init progs) sched).sh.handled
+    (∀ i ∈ u, i ∉ userHandled u h) ∧
+    (∀ i, i ∉ u → (userHandled u h).count i = h.count i) ∧
+    (∀ i, (userHandled u h).count i ≤ 1) ∧
+    (∀ m₁ m₂ a b c, m₁ ∉ u → m₂ ∉ u → h = a ++ m₁ :: b ++ m₂ :: c →
+      userHandled u h = userHandled u a ++ m₁ :: userHandled u b ++ m₂ :: userHandled u c) := by
+  intro h
+  refine ⟨?_, ?_, ?_, ?_⟩
+  · intro i hi hm
+    simp only [userHandled, List.mem_filter, List.contains_eq_mem, Bool.not_eq_true',
+      decide_eq_false_iff_not] at hm
+    exact hm.2 hi
+  · intro i hi
+    simp only [userHandled, List.count_filter, List.contains_eq_mem, hi, decide_false, Bool.not_false]
+  · intro i
+    have h1 : h.count i ≤ 1 := handled_at_most_once progs sched i
+    have : (userHandled u h).count i ≤ h.count i := by
+      simp only [userHandled]
+      exact List.Sublist.count_le _ List.filter_sublist
+    omega
+  · intro m₁ m₂ a b c h1 h2 he
+    simp only [userHandled, he, List.filter_append, List.filter_cons, List.contains_eq_mem, h1, h2,
+      decide_false, Bool.not_false, if_true, List.append_assoc]
 
 /-- (b) The receiver handles messages in enqueue order: the handled sequence is a prefix of the
 sequence of messages in enqueue order (as long as nothing was flushed, i.e. while it is alive). -/
 theorem handled_in_enqueue_order (progs : List (List Op)) (sched : List Tid) :
     ∃ rest, msgIds (run (init progs) sched).sh.enq = (run (init progs) sched).sh.handled ++ rest := by
   have q := qinv_run _ sched (qinv_init progs)
-  refine ⟨msgIds ((run (init progs) sched).sh.flushed ++ (run (init progs) sched).sh.queue), ?_⟩
-  rw [q.conserve, q.handled_eq, List.append_assoc, msgIds_append]
+  refine ⟨(run (init progs) sched).sh.taken.toList ++ (run (init progs) sched).sh.dropped ++
+    msgIds ((run (init progs) sched).sh.flushed ++ (run (init progs) sched).sh.queue), ?_⟩
+  rw [q.conserve, List.append_assoc, msgIds_append, q.handled_eq]
+  simp only [List.append_assoc]
 
 /-- (b) Real-time order ⇒ enqueue order. If in some reachable state `g₁` the send of `m₁` has
 already returned `Ok` while the send of `m₂` has not performed its first step yet (its id is not
@@ -158,7 +242,8 @@ theorem real_time_order_handled (progs : List (List Op)) (sched₁ sched₂ : Li
   rw [← hrun] at q hone
   have hmem : Item.msg m₂ ∈ (run (run (init progs) sched₁) sched₂).sh.enq := by
     have : 0 < (msgIds (run (run (init progs) sched₁) sched₂).sh.deqd).count m₂ := by
-      rw [← q.handled_eq]; exact List.count_pos_iff.mpr h2
+      rw [q.handled_eq]
+      exact List.count_pos_iff.mpr (List.mem_append_left _ (List.mem_append_left _ h2))
     rw [count_msgIds] at this
     rw [q.conserve]
     exact List.mem_append_left _ (List.mem_append_left _ (List.count_pos_iff.mp this))
@@ -167,7 +252,8 @@ theorem real_time_order_handled (progs : List (List Op)) (sched₁ sched₂ : Li
   -- `deqd` is a prefix of `enq` containing `m₂`, which occurs once in `enq`, after `m₁`
   have hd : Item.msg m₂ ∈ g.sh.deqd := by
     have : 0 < (msgIds g.sh.deqd).count m₂ := by
-      rw [← q.handled_eq]; exact List.count_pos_iff.mpr h2
+      rw [q.handled_eq]
+      exact List.count_pos_iff.mpr (List.mem_append_left _ (List.mem_append_left _ h2))
     rw [count_msgIds] at this
     exact List.count_pos_iff.mp this
   obtain ⟨d1, d2, hd12⟩ := List.append_of_mem hd
@@ -189,9 +275,32 @@ theorem real_time_order_handled (progs : List (List Op)) (sched₁ sched₂ : Li
     exact prefix_unique _ _ _ _ _
       (fun h => by have := List.count_pos_iff.mpr h; omega)
       (fun h => by have := List.count_pos_iff.mpr h; omega) e
-  refine ⟨msgIds a, msgIds b, msgIds d2, ?_⟩
-  rw [q.handled_eq, hd12, heq]
-  simp [msgIds_append, msgIds]
+  -- the dequeued ids, decomposed at `m₂` in two ways: through `deqd` and through `handled`
+  have hdq : msgIds g.sh.deqd = (msgIds a ++ m₁ :: msgIds b) ++ m₂ :: msgIds d2 := by
+    rw [hd12, heq]; simp [msgIds_append, msgIds]
+  obtain ⟨h1, h2', hh12⟩ := List.append_of_mem h2
+  have hdq' : msgIds g.sh.deqd = h1 ++ m₂ :: (h2' ++ (g.sh.taken.toList ++ g.sh.dropped)) := by
+    rw [q.handled_eq, hh12]; simp
+  have hc2 : (msgIds g.sh.deqd).count m₂ ≤ 1 := by
+    rw [count_msgIds]
+    have := congrArg (List.count (Item.msg m₂)) q.conserve
+    simp only [List.count_append] at this
+    omega
+  have hn1 : m₂ ∉ h1 := by
+    intro hm
+    have := congrArg (List.count m₂) hdq'
+    simp only [List.count_append, List.count_cons_self] at this
+    have : 0 < h1.count m₂ := List.count_pos_iff.mpr hm
+    omega
+  have hn2 : m₂ ∉ msgIds a ++ m₁ :: msgIds b := by
+    intro hm
+    have := congrArg (List.count m₂) hdq
+    simp only [List.count_append, List.count_cons_self] at this
+    have : 0 < (msgIds a ++ m₁ :: msgIds b).count m₂ := List.count_pos_iff.mpr hm
+    simp only [List.count_append] at this
+    omega
+  have := prefix_unique m₂ _ _ _ _ hn1 hn2 (hdq'.symm.trans hdq)
+  exact ⟨msgIds a, msgIds b, h2', by rw [hh12, this]⟩
 
 /-- (c) After the receiver's close (and flush) nothing is handled, whatever happens next. -/
 theorem nothing_handled_after_close (g : G) (sched : List Tid) (h : g.sh.rxOpen = false) :
@@ -272,14 +381,20 @@ def exampleProgs : List (List Op) := [[.send [] false, .bad], [.send [] false]]
 def exampleSched : List Tid :=
   [.t 0, .t 0, .t 0, .t 0, .t 0, .t 0,          -- thread 0: admitted, boxed, parked at send.enqueue
    .t 1, .t 1, .t 1, .t 1, .t 1, .t 1, .t 1, .t 1, -- thread 1: complete send of message 1
-   .recv,
+   .recv, .recv,                                   -- dequeue message 1, start its handler
    .t 0, .t 0, .t 0, .t 0,                         -- thread 0: enqueue, release, op.start, typecheck
-   .recv, .rxStop, .rxClose, .rxFlush, .recv]
+   .recv, .recv, .rxStop, .rxClose, .rxFlush, .recv]
 
 example : (run (init exampleProgs) exampleSched).sh.enq = [.msg 1, .msg 0] := by decide
 example : (run (init exampleProgs) exampleSched).sh.handled = [1, 0] := by decide
 example : (run (init exampleProgs) exampleSched).sh.rets =
     [⟨.send, 1, .ok, false, []⟩, ⟨.send, 0, .ok, false, []⟩, ⟨.bad, 0, .invalidType, false, []⟩] := by decide
+/-- round 4: a kill lands after message 0 was dequeued and before its handler's first poll: the
+message is dropped, not handled — `send` had returned `Ok` -/
+example :
+    let g := run (init [[.send [] false]]) (List.replicate 8 (.t 0) ++ [.recv, .rxStop, .rxClose, .rxFlush, .recv])
+    g.sh.rets = [⟨.send, 0, .ok, false, []⟩] ∧ g.sh.deqd = [.msg 0] ∧ g.sh.handled = [] ∧ g.sh.dropped = [0] := by
+  decide
 /-- hypotheses of `real_time_order` are satisfiable: after thread 1's complete send, a second
 program's send has not started. -/
 example : ⟨.send, 0, .ok, false, []⟩ ∈ (run (init [[.send [] false], [.send [] false]])
@@ -391,6 +506,9 @@ end C02
 #print axioms C02.handled_at_most_once
 #print axioms C02.rejected_never_handled
 #print axioms C02.accepted_message_fate
+#print axioms C02.dequeued_then_dropped_only_by_other_exit
+#print axioms C02.ok_sends_are_handled_whenever_the_mailbox_is_quiet
+#print axioms C02.undecodable_message_is_dropped_alone
 #print axioms C02.handled_in_enqueue_order
 #print axioms C02.real_time_order
 #print axioms C02.real_time_order_handled
